@@ -53,6 +53,13 @@ async fn refuse_async(x: u32) -> u32 {
     x + 40
 }
 
+/// One counted fake built by ONE source line, used both inside every script (where the scope may be
+/// torn down by a panic) and by the fresh-thread probe afterwards; the harness never touches its
+/// counter, exactly like a set-up helper shared by tests.
+fn shared_counted_fake(inj: &mut InjectorPP) {
+    inj.when_called(injectorpp::func!(fn (r1)() -> i32)).will_execute(injectorpp::fake!(func_type: fn() -> i32, returns: 0x7111, times: 1));
+}
+
 fn pending_combos() -> Vec<Vec<(usize, usize)>> {
     vec![
         vec![],
@@ -101,8 +108,12 @@ struct Obs {
 fn body(pool: &Pool, s: &Script, rng: &mut Rng, obs: &mut Obs) {
     let _lib = ip::LibScope::enter();
     let mut inj = InjectorPP::new();
+    shared_counted_fake(&mut inj);
+    if r1() != 0x7111 {
+        panic!("USER: HARNESS-MODEL shared counted fake not in effect");
+    }
     // pending expectations on three fixed synthetic targets with the first three `times` sites
-    let i32_targets: Vec<usize> = pool.targets.iter().enumerate().filter(|(_, t)| t.fam == Fam::I32).map(|(i, _)| i).collect();
+    let i32_targets: Vec<usize> = pool.targets.iter().enumerate().filter(|(_, t)| t.fam == Fam::I32 && t.name != "r0" && t.name != "r1").map(|(i, _)| i).collect();
     for (k, &(budget, made)) in s.pending.iter().enumerate() {
         let ti = i32_targets[k];
         let _ = install(&mut inj, &pool.targets[ti], Kind::FakeTimes, k, budget);
@@ -114,7 +125,7 @@ fn body(pool: &Pool, s: &Script, rng: &mut Rng, obs: &mut Obs) {
     let mut picks: Vec<(usize, Kind)> = Vec::new();
     while picks.len() < 3 {
         let ti = rng.below(pool.targets.len() as u64) as usize;
-        if i32_targets[..3].contains(&ti) || picks.iter().any(|p| p.0 == ti) {
+        if i32_targets[..3].contains(&ti) || picks.iter().any(|p| p.0 == ti) || pool.targets[ti].name == "r0" || pool.targets[ti].name == "r1" {
             continue;
         }
         let ks = kinds_of(pool.targets[ti].fam);
@@ -349,9 +360,11 @@ pub fn run(ctx: &Ctx) {
                 let r = std::panic::catch_unwind(|| {
                     let mut i = InjectorPP::new();
                     i.when_called(injectorpp::func!(fn (r0)() -> i32)).will_execute_raw(injectorpp::func!(fn (fk1)() -> i32));
-                    let a = r0();
+                    // "use it normally" includes a counted fake from a shared helper
+                    shared_counted_fake(&mut i);
+                    let a = if r1() == 0x7111 { r0() } else { -1 };
                     drop(i);
-                    let b = r0();
+                    let b = r0() + (r1() - 0x1101);
                     let p = InjectorPP::prevent();
                     let c = p.is_active();
                     drop(p);
